@@ -7,8 +7,8 @@ C14 — rasterization. Core-only models and the exact pixel specification.
   `ToScanxScanner` (`dy − y·dpmm`). Stated over `Rat` with `floor` explicit; Go's float→int
   conversion truncates toward zero (`truncQ`).
 * L2 slice-aliasing model of Go slices (array id, offset, len, cap over a memory of arrays) and of
-  `LinearGradient/RadialGradient.SetColorSpace` as written (`gradient := *g` copies the slice
-  HEADER, the loop writes through it) and as repaired (stops copied first).
+  `LinearGradient/RadialGradient.SetColorSpace` (`gradient := *g` copies the slice HEADER, the stops
+  are copied into a fresh array, the loop writes through the copy).
 * L2 replay of opaque draws over a frame buffer (draw order).
 * L3 pixel specification `PIX`: decides with the exact winding number (`Canvas.Wn`) for every pixel
   whose centre is more than one pixel away from every edge which draw must own it.
@@ -141,15 +141,18 @@ def mapInPlaceFrom {α} (f : α → α) (s : Slice) : Nat → Nat → Mem α →
 
 def mapInPlace {α} (f : α → α) (m : Mem α) (s : Slice) : Mem α := mapInPlaceFrom f s s.len 0 m
 
-/-- colors.go SetColorSpace AS WRITTEN: `gradient := *g` (header copy), then the loop. Returns the
-memory and the slice header of the returned gradient; `linear` = the early return -/
-def setColorSpace {α} (linear : Bool) (f : α → α) (m : Mem α) (stops : Slice) : Mem α × Slice :=
-  if linear then (m, stops) else (mapInPlace f m stops, stops)
+/-- `append(Stops{}, s...)`: a fresh array holding what s shows, and a header over all of it -/
+def copySlice {α} (m : Mem α) (s : Slice) : Mem α × Slice :=
+  (m ++ [view m s], { arr := m.length, off := 0, len := s.len, cap := s.len })
 
-/-- repaired: copy the stops into a fresh array first -/
-def setColorSpaceFixed {α} (linear : Bool) (f : α → α) (m : Mem α) (stops : Slice) : Mem α × Slice :=
+/-- colors.go Linear/RadialGradient.SetColorSpace (since 1d02f0f): `gradient := *g` (header copy),
+`gradient.Stops = append(Stops{}, g.Stops...)` (fresh array), then the in-place loop over the copy.
+Returns the memory and the slice header of the returned gradient; `linear` = the early return -/
+def setColorSpace {α} (linear : Bool) (f : α → α) (m : Mem α) (stops : Slice) : Mem α × Slice :=
   if linear then (m, stops)
-  else (m ++ [(view m stops).map f], { arr := m.length, off := 0, len := stops.len, cap := stops.len })
+  else
+    let c := copySlice m stops
+    (mapInPlace f c.1 c.2, c.2)
 
 /-! ### (d) replay of opaque draws -/
 
